@@ -9,6 +9,7 @@
 //   J <r_join>                              scripted pthread_join result
 //   T <size> <n> <delay_us> <f|r>           real: n concurrent threads with the requested stack size, joined
 //                                           forwards or in reverse; the wrappers pass through and record
+//   a line may start with @<n>: errno is set to n before every library call under test
 //   U <size>                                real, outcome left open (sizes the platform may refuse)
 #ifndef _GNU_SOURCE
 #  define _GNU_SOURCE
@@ -114,7 +115,6 @@ int __wrap_pthread_attr_init(pthread_attr_t* a)
     if (!r_init) {
       attr_stack[id] = FAKE_DEFAULT_STACK;
     }
-    errno = 0; // pthread functions return the error number, they do not set errno
     return r_init;
   }
   if (recording && on_main()) {
@@ -131,8 +131,7 @@ int __wrap_pthread_attr_setstacksize(pthread_attr_t* a, size_t size)
     if (!r_set) {
       attr_stack[id] = size;
     }
-    errno = 0;
-    return r_set;
+    return r_set; // pthread functions return the error number; errno is left as it was
   }
   if (recording && on_main()) {
     rec("set(a%d,%zu)", attr_id(a), size);
@@ -164,7 +163,6 @@ int __wrap_pthread_create(pthread_t* t, const pthread_attr_t* a, void* (*fn)(voi
       fake_stack = a ? attr_stack[attr_id(a)] : FAKE_DEFAULT_STACK; // the stack THIS call's attributes carry
       *t         = pthread_self();
     }
-    errno = 0;
     return r;
   }
   if (recording && on_main()) {
@@ -189,10 +187,25 @@ int __wrap_pthread_join(pthread_t t, void** ret)
 {
   if (fake) {
     rec("join(%s,%s)", pthread_equal(t, expected_thread) ? "t" : "t?", ret ? "ptr" : "null");
-    errno = 0;
     return r_join;
   }
   return __real_pthread_join(t, ret);
+}
+
+// ------------------------------------------------------------------ errno at entry
+// A case line may start with "@<n>": errno is set to n immediately before every library call under test.
+static int entry_errno;
+
+static ZixStatus e_thread_create(ZixThread* t, size_t size, ZixThreadFunc f, void* arg)
+{
+  errno = entry_errno;
+  return zix_thread_create(t, size, f, arg);
+}
+
+static ZixStatus e_thread_join(ZixThread t)
+{
+  errno = entry_errno;
+  return zix_thread_join(t);
 }
 
 // ------------------------------------------------------------------ scripted cases
@@ -227,7 +240,7 @@ static void case_scripted(char** tok)
   expected_fn  = never_run;
   expected_arg = &dummy;
   fake         = 1;
-  const ZixStatus st = zix_thread_create(&th, size, never_run, &dummy);
+  const ZixStatus st = e_thread_create(&th, size, never_run, &dummy);
   fake         = 0;
   printf("st=%s started=%d", status_name(st), fake_started);
   if (fake_started) {
@@ -243,7 +256,7 @@ static void case_join(char** tok)
   reset_rec();
   expected_thread = pthread_self();
   fake            = 1;
-  const ZixStatus st = zix_thread_join(expected_thread);
+  const ZixStatus st = e_thread_join(expected_thread);
   fake            = 0;
   printf("st=%s || %s\n", status_name(st), calls);
 }
@@ -334,7 +347,7 @@ static void run_real(size_t size, int n, long delay_us, int reverse, int open_ou
     captured_sets = 0;
     captured_size = 0;
     recording    = 1;
-    slots[i].st  = zix_thread_create(&slots[i].th, size, thread_fn, &slots[i]);
+    slots[i].st  = e_thread_create(&slots[i].th, size, thread_fn, &slots[i]);
     recording    = 0;
     seq          = seq && !strcmp(calls, want);
     // the attribute object must have been given at least the requested size
@@ -352,7 +365,7 @@ static void run_real(size_t size, int n, long delay_us, int reverse, int open_ou
     if (slots[i].st != ZIX_STATUS_SUCCESS) {
       continue;
     }
-    const ZixStatus js = zix_thread_join(slots[i].th);
+    const ZixStatus js = e_thread_join(slots[i].th);
     if (js != ZIX_STATUS_SUCCESS) {
       joined = js;
     }
@@ -397,7 +410,13 @@ int main(void)
   }
   setvbuf(stdout, NULL, _IOLBF, 0);
   while (vgetline(&line, &cap)) {
-    const int n = vsplit(line, tok, 8);
+    int n = vsplit(line, tok, 8);
+    entry_errno = 0;
+    if (n > 0 && tok[0][0] == '@') {
+      entry_errno = atoi(tok[0] + 1);
+      --n;
+      memmove(tok, tok + 1, (size_t)n * sizeof(tok[0]));
+    }
     if (n == 5 && !strcmp(tok[0], "S")) {
       case_scripted(tok);
     } else if (n == 2 && !strcmp(tok[0], "J")) {
